@@ -398,6 +398,21 @@ pub fn dispatch(op: &str, toks: &[&str]) -> Option<String> {
         // lib_cuts <name> <container> <step>
         "lib_cuts" => with_case(toks[0], &mut Cuts { container: toks[1], step: toks[2].parse().unwrap() }),
         "lib_det" => with_case(toks[0], &mut Det),
+        // lib_big <size> <container> : a packed Vec<u8> of <size> poorly compressible bytes followed by a marker, saved and
+        // loaded in the container (no bytes printed): OK <file length> <equal 0/1>
+        "lib_big" => {
+            let n: usize = toks[0].parse().unwrap();
+            let mut x: u64 = 0x243F6A8885A308D3 ^ n as u64;
+            let data: Vec<u8> = (0..n).map(|_| { x = x.wrapping_mul(6364136223846793005).wrapping_add(1442695040888963407); (x >> 33) as u8 }).collect();
+            let value = (data, 0xC0FFEEu32);
+            match save_container(toks[1], 0, &value) {
+                Err(e) => format!("SAVE-ERR {}", err_class(&e)),
+                Ok(bytes) => match load_container::<(Vec<u8>, u32)>(toks[1], 0, &bytes) {
+                    Ok((y, _)) => format!("OK {} {}", bytes.len(), (y == value) as u8),
+                    Err(e) => format!("LOAD-ERR {} {}", bytes.len(), err_class(&e)),
+                },
+            }
+        }
         // lib_load <name> <hex>
         "lib_load" => with_case(toks[0], &mut Load { bytes: &unhex(toks[1]) }),
         // lib_mut <name> <budget>
